@@ -362,7 +362,7 @@ def interleaved_configs(tier):
 
 # =============================================================================
 
-SPLIT = {'quick': 4, 'thorough': 4}    # subtrees per E1 configuration (each
+SPLIT = {'quick': 4, 'thorough': 6}    # subtrees per E1 configuration (each
                                        # has its own happens-before cache)
 
 
@@ -377,8 +377,21 @@ def _prepare_all():
 
 
 def _dfs(item):
+  """One E1 work unit: several subtrees (open prefixes) of one configuration,
+  explored by one Explorer so that they share one happens-before cache (the
+  cache is what keeps the number of executions down; a cache per subtree
+  multiplies the work)."""
   _prepare_all()
-  return explorer._dfs_unit(item)
+  module, name, params, bounds, prefixes, limits = item
+  ex = explorer.Explorer(explorer._mk(module, name, params),
+                         pre_bound=bounds[0], dev_bound=bounds[1],
+                         det_checks=1, **limits)
+  for prefix in prefixes:
+    ex.dfs(prefix)
+  st = ex.stats
+  st.count('execs:' + name, ex.execs)
+  st.count('hb_pruned_nodes', ex.pruned)
+  return st
 
 
 def _seed(item):
@@ -453,14 +466,22 @@ def run(ctx):
   seeds = []
   limits = {'max_execs': None, 'time_limit': None, 'hb_cache': True}
   if 'threads' in only:
-    seeds += [('vmc.sharness', n, p, (bound, 0), SPLIT[ctx.tier], limits)
+    seeds += [('vmc.sharness', n, p, (bound, 0), 2, limits)
               for _, bound, cfgs in tgroups for n, p in cfgs]
   if 'interleaved' in only:
-    seeds += [('vmc.charness', n, p, (bound, 0), SPLIT[ctx.tier], limits)
+    seeds += [('vmc.charness', n, p, (bound, 0), 2, limits)
               for _, bound, cfgs in igroups for n, p in cfgs]
   work = []
   for st in _pool_map(_seed, seeds):
-    work += st.aux
+    # the open prefixes of one configuration, dealt round-robin into <= SPLIT
+    # work units
+    by_cfg = st.aux
+    if by_cfg:
+      module, name, params, bounds, _, lim = by_cfg[0]
+      prefixes = [x[4] for x in by_cfg]
+      k = SPLIT[ctx.tier]
+      work += [(module, name, params, bounds, prefixes[i::k], lim)
+               for i in range(k) if prefixes[i::k]]
     ctx.merge(st)
   ctx.pmap(_dfs, ctx.shuffled(work))
   ctx.notes['bounds'] = [[l, len(c)] for l, _, c in tgroups + igroups]
